@@ -311,6 +311,27 @@ def hostile_cases(rng, tier):
             for sched in ([1], [5], [step + 1], []):
                 out.append(({"op": "de", "schema": {"nodes": many}, "bytes": b, "reader": {"kind": "chunks", "sched": sched},
                              "limits": {"depth": 64, "max_seq": 100, "max_alloc": cap}}, many, "fields of increasing size around the allocation cap"))
+    # the slice path allocates nothing of its own whatever serde entry point the target uses for the top-level value (what f64, u64, i64,
+    # u128, i128, String, &str, Vec<u8>, Option<_> ... targets call): valid encodings of leaves, decimals of every representation, unions
+    P, F = scopes.prim, scopes.fixed
+    typed = [(P("bytes", lt="decimal", prec=20, scale=0), [{"t": "dec", "v": pyavro.be16(x), "s": 0} for x in (0, -1, 12345678901234567, -(1 << 70))]),
+             (P("bytes", lt="decimal", prec=20, scale=3), [{"t": "dec", "v": pyavro.be16(x), "s": 3} for x in (0, 1, -123456, 1 << 62)]),
+             (F("DF", 9, lt="decimal", prec=20, scale=2), [{"t": "dec", "v": pyavro.be16(x), "s": 2} for x in (0, -5, 1 << 60)]),
+             (P("bytes", lt="big-decimal"), [{"t": "dec", "v": pyavro.be16(x), "s": sc} for x, sc in ((0, 0), (-7, 0), (123456789, 4))]),
+             (P("string"), [{"t": "str", "v": [104, 105]}, {"t": "str", "v": []}]), (P("bytes"), [{"t": "bytes", "v": [0, 255, 7]}]),
+             (P("long"), [{"t": "long", "v": pyavro.limbs(x)} for x in (0, -1, 1 << 40)]), (P("double"), [{"t": "f64", "v": [0, 0, 0, 0, 0, 0, 240, 63]}]),
+             (F("F4", 4), [{"t": "fix", "v": [1, 2, 3, 4]}]), (P("string", lt="uuid"), [{"t": "str", "v": [ord(c) for c in "00000000-0000-0000-0000-000000000000"]}]),
+             (scopes.un(P("null"), P("long")), [{"t": "un", "b": 1, "x": {"t": "long", "v": pyavro.limbs(9)}}, {"t": "un", "b": 0, "x": {"t": "null"}}]),
+             (scopes.un(P("null"), P("bytes", lt="decimal", prec=9, scale=0), P("string")),
+              [{"t": "un", "b": 1, "x": {"t": "dec", "v": pyavro.be16(77), "s": 0}}, {"t": "un", "b": 2, "x": {"t": "str", "v": [122]}}])]
+    tops = ["any", "f64", "f32", "u64", "i64", "i32", "u128", "i128", "str", "string", "bytes", "byte_buf", "option", "ignored"]
+    for t, vs in typed:
+        G = scopes.flatten(t)["nodes"]
+        for v in vs:
+            b = pyavro.encode(G, 1, v)
+            for top in tops:
+                out.append(({"op": "de_sum", "schema": {"nodes": G}, "bytes": b, "reader": {"kind": "slice"}, "top_hint": top,
+                             "limits": {"depth": 64, "max_seq": 1000, "max_alloc": 1 << 16}}, G, f"typed entry point deserialize_{top}: no allocation on the slice path"))
     return out
 
 
